@@ -788,7 +788,7 @@ fn positional(txt: String, lc: &rewrite::LiftedClosure) -> String {
     let idxs: Vec<usize> = if order.is_empty() { (0..lc.captures.len()).collect() } else { order.clone() };
     let norm = |x: &str| -> String { let x: String = x.chars().filter(|c| !c.is_whitespace()).collect(); x.trim_start_matches("&mut").trim_start_matches('&').to_string() };
     for (i, ci) in idxs.iter().enumerate() {
-        let Some(known) = lc.cap_types.get(*ci).cloned().flatten().filter(|k| !k.starts_with('?')) else { continue; };
+        let Some(known) = lc.cap_types.get(*ci).cloned().flatten().filter(|k| !k.starts_with('?') && k.contains('<')) else { continue; };
         let key = format!("${}:", i);
         let Some(pos) = t.find(&key) else { continue; };
         let start = pos + key.len(); let rest = &t[start..];
@@ -802,6 +802,27 @@ fn positional(txt: String, lc: &rewrite::LiftedClosure) -> String {
         }
     }
     for (i, c) in caps.iter().enumerate().rev() { t = t.replace(&format!("${}", i), &(if c.as_str() == "self" { "this".to_string() } else { c.replace("self.", "self_") })); }
+    // L1t for captures the signature names instead of numbering them
+    if t.trim_start().starts_with('(') {
+        for (ci, c) in lc.captures.iter().enumerate() {
+            // (a bare type parameter of the enclosing function is not a type the lifted function can name)
+            let Some(known) = lc.cap_types.get(ci).cloned().flatten().filter(|k| !k.starts_with('?') && k.contains('<')) else { continue; };
+            if c.contains('.') || c == "self" { continue; }
+            let key = format!("{}:", c);
+            let mut from = 0usize; let mut hit: Option<usize> = None;
+            while let Some(p) = t[from..].find(&key) { let at = from + p; let lb = at == 0 || !(t.as_bytes()[at - 1].is_ascii_alphanumeric() || t.as_bytes()[at - 1] == b'_'); if lb { hit = Some(at); break; } from = at + key.len(); }
+            let Some(pos) = hit else { continue; };
+            let start = pos + key.len(); let rest = &t[start..];
+            let mut depth = 0i32; let mut len = 0usize;
+            for ch in rest.chars() { match ch { '<' | '(' | '[' => depth += 1, '>' | ']' => depth -= 1, ')' => { if depth == 0 { break; } depth -= 1; } ',' if depth == 0 => break, _ => {} } len += ch.len_utf8(); }
+            let declared = rest[..len].to_string();
+            if norm(&declared) != norm(&known) {
+                let d = declared.trim_start(); let prefix = if d.starts_with("&mut") { "&mut " } else if d.starts_with('&') { "&" } else { "" };
+                eprintln!("hx: note: rule L1t: capture `{}` of `{}` has type `{}` now (contract signature: `{}`)", c, lc.name, known, declared.trim());
+                t = format!("{} {}{}{}", &t[..start], prefix, known, &t[start + len..]);
+            }
+        }
+    }
     t
 }
 thread_local! { static POS_ORDER: std::cell::RefCell<Vec<usize>> = std::cell::RefCell::new(vec![]); }
